@@ -99,6 +99,15 @@ func VerifC04Receive(s *Session, n *com.Packet) (leaves []string, replies []stri
 	return
 }
 
+// VerifC04Held returns the number of fragments held in reassembly state.
+func (s *Session) VerifC04Held() int {
+	n := 0
+	for _, c := range s.frags {
+		n += len(c.data)
+	}
+	return n
+}
+
 // VerifC04Last returns the session's "last dropped group" marker.
 func (s *Session) VerifC04Last() uint16 { return s.state.Last() }
 
